@@ -117,6 +117,7 @@ func runC17(p *core.Program, r *core.Report) {
 	c17ReadPath(p, r)
 	c17Retention(p, r)
 	c17Append(p, r)
+	c17NoFormatData(p, r)
 	c17Levels(p, r)
 	c17LevelParse(p, r)
 	c17Rotate(p, r)
@@ -1481,4 +1482,67 @@ func joinSegments(p *core.Program, rv *resolver, e ast.Expr, depth int) []string
 		}
 	}
 	return []string{rv.str(e)}
+}
+
+// c17NoFormatData: a finished message reaches the sink as data, never as a format. In the logger
+// package no Printf-style function (a variadic func whose parameter before the ...interface{} is the
+// format string) is called with a non-constant format and nothing to format: a message containing
+// '%' would be rewritten ("100%!o(MISSING)f"). The logger's own Printf(id, format, args...) passes its
+// caller's format on with the arguments, which is the one legitimate non-constant format.
+func c17NoFormatData(p *core.Program, r *core.Report) {
+	pk := p.Pkg("logger/logfile")
+	if pk == nil {
+		return
+	}
+	for _, fi := range p.Funcs {
+		if fi.Pkg != pk || fi.Decl.Body == nil || core.IsCanaryFile(p.Fset.Position(fi.Decl.Pos()).Filename) && false {
+			continue
+		}
+		info := fi.Pkg.TypesInfo
+		calls := 0
+		var probs []string
+		ast.Inspect(fi.Decl.Body, func(n ast.Node) bool {
+			call, ok := n.(*ast.CallExpr)
+			if !ok {
+				return true
+			}
+			var id *ast.Ident
+			switch f := ast.Unparen(call.Fun).(type) {
+			case *ast.Ident:
+				id = f
+			case *ast.SelectorExpr:
+				id = f.Sel
+			}
+			if id == nil {
+				return true
+			}
+			fn, _ := info.Uses[id].(*types.Func)
+			if fn == nil || !strings.HasSuffix(fn.Name(), "f") {
+				return true
+			}
+			sig, _ := fn.Type().(*types.Signature)
+			if sig == nil || !sig.Variadic() || sig.Params().Len() < 2 {
+				return true
+			}
+			fidx := sig.Params().Len() - 2
+			if b, ok := sig.Params().At(fidx).Type().Underlying().(*types.Basic); !ok || b.Info()&types.IsString == 0 {
+				return true
+			}
+			if len(call.Args) <= fidx {
+				return true
+			}
+			calls++
+			if tv, ok := info.Types[call.Args[fidx]]; ok && tv.Value != nil {
+				return true // constant format
+			}
+			if len(call.Args) > fidx+1 {
+				return true // a format handed on together with its arguments
+			}
+			probs = append(probs, fmt.Sprintf("%s: %s is called with the message `%s` as its format and no arguments: a '%%' in the message is interpreted", p.Pos(call.Pos()), fn.Name(), stripSpaces(types.ExprString(call.Args[fidx]))))
+			return true
+		})
+		if calls > 0 {
+			fileProbs(r, "C17.append", core.FuncName(fi.Obj)+" message as data", p.Pos(fi.Decl.Pos()), probs, "formats are constants or travel with their arguments")
+		}
+	}
 }
